@@ -44,8 +44,10 @@ int __CPROVER_uninterpreted_hash_size(int base);
 static inline void QVariantHash_insert__QVariantHash(QVariantHash *self, QVariantHash other)
 { self->id = __CPROVER_uninterpreted_hash_merge(self->id, other.id); }
 #endif
+#ifndef VERIF_OWN_QVARIANTHASH_INSERT_KV
 static inline void QVariantHash_insert__QString_QVariant(QVariantHash *self, QString key, QVariant v)
 { self->id = __CPROVER_uninterpreted_hash_insert(self->id, QSTRING_KEY(key), v.id); }
+#endif
 static inline int QVariantHash_remove__QString(QVariantHash *self, QString key)
 { int had = __CPROVER_uninterpreted_hash_contains(self->id, QSTRING_KEY(key)) != 0; self->id = __CPROVER_uninterpreted_hash_remove(self->id, QSTRING_KEY(key)); return had; }
 static inline BOOL QVariantHash_contains__QString(QVariantHash self, QString key)
